@@ -15,6 +15,7 @@ import (
 
 	aftpb "github.com/openconfig/gribi/v1/proto/gribi_aft"
 	spb "github.com/openconfig/gribi/v1/proto/service"
+	"google.golang.org/protobuf/proto"
 
 	"verifsim/simnet"
 	"verifsim/simrt"
@@ -115,8 +116,13 @@ func genGetSnap(seed uint64, prop string) *Scenario {
 func runGetSnap(e *env) {
 	e.setup()
 	cur := e.openSession([2]uint64{0, 1}, false)
+	// states: every state the model goes through from the moment the Get starts, one per folded result (however
+	// the server groups results into responses); winEnd: the last of them that stems from operations sent while
+	// the Get was still running.
 	var states []Snapshot
 	record := func() { states = append(states, modelSnapshot(e.model, "", -1)) }
+	winEnd := 0
+	defer func() { e.onResult = nil }()
 	var gc *simnet.GetClient
 	var spec *GetSpec
 	var got []*spb.GetResponse
@@ -187,6 +193,8 @@ func runGetSnap(e *env) {
 				e.allOps[op.GetId()] = rec
 			}
 			sentOps += len(ops) // the server may process them (and the Get may see the result) before the acks arrive
+			inWindow := !finished
+			e.onResult = record
 			cur.mc.Send(&spb.ModifyRequest{Operation: ops})
 			// the writer may have to wait for the Get to release the instance lock
 			// (however the server groups results into responses: read until nothing is owed any more -
@@ -209,7 +217,10 @@ func runGetSnap(e *env) {
 					break
 				}
 				e.processResults(cur, []*spb.ModifyResponse{r})
-				record()
+			}
+			e.onResult = nil
+			if inWindow {
+				winEnd = len(states) - 1
 			}
 			if !finished {
 				e.probe("getsnap: write acknowledged while the Get was still in progress")
@@ -232,44 +243,58 @@ func runGetSnap(e *env) {
 	if err != nil || len(dup) > 0 {
 		e.report("C07", "get-bad-entry", "bad or duplicate entry", fmt.Sprint(err, dup), false)
 	}
-	// per network instance: the returned entries must be one of the states the instance went through
+	// What the properties promise for a Get that overlaps modifications is per entry, not a snapshot of the
+	// instance (the tree happens to hold the instance's read lock for the whole Get; its own comments consider
+	// per-entry locking): every returned entry is one that was installed, with that payload, at some instant
+	// while the Get ran; a key that was installed unchanged throughout is returned; a key that never was is not.
 	kind := kindOfAFT(spb.AFTType(spec.AFT))
-	for _, ni := range e.model.SortedNIs() {
-		if !spec.All && ni != spec.NI {
-			continue
-		}
-		part := Snapshot{}
-		for k, v := range snap {
-			if k.NI == ni {
-				part[k] = v
+	if winEnd >= len(states) {
+		winEnd = len(states) - 1
+	}
+	inScope := func(k Key) bool {
+		return (spec.All || k.NI == spec.NI) && (kind < 0 || int(k.Kind) == kind)
+	}
+	keys := map[Key]bool{}
+	for i := 0; i <= winEnd; i++ {
+		for k := range states[i] {
+			if inScope(k) {
+				keys[k] = true
 			}
-		}
-		ok := false
-		last := endIdx
-		if last >= len(states) {
-			last = len(states) - 1
-		}
-		for i := 0; i <= last && !ok; i++ {
-			want := Snapshot{}
-			for k, v := range states[i] {
-				if k.NI == ni && (kind < 0 || int(k.Kind) == kind) {
-					want[k] = v
-				}
-			}
-			ok = len(diffSnap(want, part)) == 0
-		}
-		if !ok {
-			var keys []Key
-			for k := range part {
-				keys = append(keys, k)
-			}
-			sortKeys(keys)
-			e.checkpoint(func() {
-				e.report("C07", "get-not-a-snapshot", "Get returned a set of entries that was never installed at any one instant", fmt.Sprintf("instance %s: returned %v; the instance went through %d states while the Get ran", ni, keys, last+1), false)
-				e.report("C11", "get-not-a-snapshot", "Get concurrent with modifications returned a set of entries that never existed", fmt.Sprintf("instance %s: returned %v", ni, keys), false)
-			})
 		}
 	}
+	for k := range snap {
+		keys[k] = true
+	}
+	var all []Key
+	for k := range keys {
+		all = append(all, k)
+	}
+	sortKeys(all)
+	for _, k := range all {
+		gotV, gotOK := snap[k]
+		ok := false
+		for i := 0; i <= winEnd && !ok; i++ {
+			v, has := states[i][k]
+			if !inScope(k) {
+				has = false
+			}
+			ok = has == gotOK && (!has || proto.Equal(normalize(v), normalize(gotV)))
+		}
+		if !ok {
+			what := "returned with a payload it never had while the Get ran"
+			if !gotOK {
+				what = "missing although installed unchanged for as long as the Get ran"
+			} else if !inScope(k) {
+				what = "returned although outside the requested scope"
+			}
+			e.checkpoint(func() {
+				e.report("C07", "get-entry-never-so", "Get overlapping modifications: an entry was "+what, fmt.Sprintf("%s; the model went through %d states while the Get ran", k, winEnd+1), false)
+				e.report("C11", "get-entry-never-so", "Get concurrent with modifications: an entry was "+what, k.String(), false)
+			})
+			break
+		}
+	}
+	_ = endIdx
 	e.checkpoint(func() { e.afterQuiescenceChecks(nil) })
 	if spec != nil {
 		// the same Get again, now that nothing changes any more: exactly what is installed
